@@ -821,3 +821,8 @@ N('C15', 'input clauses normalised through set()', SATF,
   "    cnf = [list(dict.fromkeys(clause)) for clause in cnf]\n", "    cnf = [sorted(set(clause)) for clause in cnf]\n")
 B('C17', 'reflexive case of an explanation not handled', CONGC,
   "            if u == v:\n                # Nothing to explain: the closure records no path for u = u\n                return ProofTerm.reflexive(self.index[u])\n", "", 'C17.G5', 'request(get_proofterm(u1, u2))')
+B('C11', 'definitions accept schematic variables', 'server/items.py',
+  "            if self.prop.get_svars() or self.prop.get_stvars():\n                raise ItemException(\"Definition %s: schematic variables in the defining equation\" % self.name)\n", "", 'C11.D7', 'refuses(schematic variables)')
+B('C11', 'rhs variables compared by name', 'server/items.py',
+  "            lhs_vars = set(args)\n            rhs_vars = set(self.prop.rhs.get_vars())", "            lhs_vars = set(v.name for v in args)\n            rhs_vars = set(v.name for v in self.prop.rhs.get_vars())", 'C11.D7', 'variables-with-types',
+  more=[('", ".join(v.name for v in rhs_vars - lhs_vars)))', '", ".join(v for v in rhs_vars - lhs_vars)))')])
